@@ -27,7 +27,7 @@ CVC5 = "/usr/bin/cvc5"
 
 
 # ---- witnesses -----------------------------------------------------------------------------------------------------
-def conc(model, v, cap=4096):
+def conc(model, v, cap=4096, depth=0):
     """concrete python value of a (symbolic) value under a model"""
     if isinstance(v, SInt):
         r = model.eval(v.t, model_completion=True)
@@ -57,7 +57,20 @@ def conc(model, v, cap=4096):
         return {"$sym": repr(v)}
     if hasattr(type(v), "_pyvc_witness"):
         return v._pyvc_witness(model)
+    if type(v).__module__.startswith("goodwe") and depth < 3:
+        attrs = {}
+        for k, x in getattr(v, "__dict__", {}).items():
+            if callable(x) and not isinstance(x, Sym):
+                continue
+            attrs[k] = conc(model, x, cap, depth + 1)
+        return _New(type(v), attrs)
     return v
+
+
+class _New:
+    def __init__(self, cls, attrs):
+        self.cls = cls
+        self.attrs = attrs
 
 
 def witness_of(ex, model):
